@@ -23,11 +23,12 @@ from .core import Check, run_tlc
 
 LEVEL = "model_checking"
 
+# depth: transition-cover depth for the mixed-terminator streams (rule "cover", StreamCore!CoverSets)
 # full / cuts: chunkings of the default response (no Content-Type); afull / acuts: chunkings replayed under every other
 # Content-Type; pcuts: cuts per stream in two-stream schedules; combos: helper pairs for SSE+SSE schedules
 BOUNDS = {
-    "quick": {"tier": 1, "full": 12, "cuts": 2, "afull": 7, "acuts": 1, "pcuts": 1, "combos": 2},
-    "thorough": {"tier": 2, "full": 14, "cuts": 3, "afull": 10, "acuts": 2, "pcuts": 2, "combos": 3},
+    "quick": {"tier": 1, "full": 12, "cuts": 2, "afull": 7, "acuts": 1, "pcuts": 1, "combos": 2, "depth": 3},
+    "thorough": {"tier": 2, "full": 14, "cuts": 3, "afull": 10, "acuts": 2, "pcuts": 2, "combos": 3, "depth": 3},
 }
 # cut kinds that must be present by construction (counted, not assumed)
 MUST_KINDS = ("in_char", "cr_lf", "between_lines", "before_blank", "in_line")
@@ -55,7 +56,7 @@ def consts(b: dict, with_streams: bool) -> str:
     s = "CONSTANTS\n"
     if with_streams:
         s += " Streams <- MCStreams\n"
-    return s + f" Tier = {b['tier']}\n MaxFullLen = {b['full']}\n MaxCuts = {b['cuts']}\n AltFullLen = {b['afull']}\n AltMaxCuts = {b['acuts']}\n"
+    return s + f" Tier = {b['tier']}\n MaxFullLen = {b['full']}\n MaxCuts = {b['cuts']}\n AltFullLen = {b['afull']}\n AltMaxCuts = {b['acuts']}\n CoverDepth = {b['depth']}\n"
 
 
 MC_CFG = (
@@ -67,7 +68,7 @@ MC_CFG = (
 def design(chk: Check, b: dict) -> tuple[int, int]:
     """Returns (scenarios, distinct states) of the full design run (0, 0 when the design itself is refuted)."""
     # (i) per-action coverage on reduced bounds (-coverage costs a factor 3 on the full family)
-    small = dict(b, full=6, cuts=0, afull=4, acuts=0)
+    small = dict(b, full=6, cuts=0, afull=4, acuts=0, depth=0)
     r = run_tlc(chk.scratch, "MC_Stream", "SPECIFICATION Spec\n" + consts(small, True) + MC_CFG, coverage=True, allow_violation=True, timeout=1500, heap=HEAP, env=JVM)
     chk.add_tlc(f"MC_Stream[coverage run: tier={small['tier']},full<={small['full']},cuts<={small['cuts']}]", r)
     if not r.violated:
@@ -101,6 +102,27 @@ def generate(chk: Check, b: dict) -> list[dict]:
             s[k] = sorted(s[k], key=lambda c: (len(c), c))
             chk.require(s[k][0] == [], "the unsplit stream is not part of the chunkings")
         chk.require(all(0 <= x <= 255 for x in s["bytes"]), "byte out of range")
+    # transition cover actually achieved (labels computed by TLC: StreamCore!CutClass = <<kind, byte before, byte after>>)
+    singles: set = set()
+    pairs: set = set()
+    triples: set = set()
+    stale = 0
+    for s in scen:
+        cl = ["/".join(c) for c in s["classes"]]
+        for c in s["chunkings"]:
+            k = [cl[x - 1] for x in c]
+            singles.update(k)
+            if len(k) <= 3:  # (all-subset chunkings of short streams are not itemised)
+                pairs.update((k[i], k[j]) for i in range(len(k)) for j in range(i + 1, len(k)))
+                triples.update((k[i], k[j], k[m]) for i in range(len(k)) for j in range(i + 1, len(k)) for m in range(j + 1, len(k)))
+            # a cut right after a bare CR (next byte not LF) followed by a later cut right before an LF that is not part of a CRLF
+            a = [i for i, x in enumerate(c) if s["classes"][x - 1][1] == "cr" and s["classes"][x - 1][2] != "lf"]
+            if a and any(s["classes"][x - 1][2] == "lf" and s["classes"][x - 1][1] != "cr" for x in c[a[0] + 1 :]):
+                stale += 1
+    chk.cov["cut_classes_covered"] = {"single": len(singles), "ordered_pairs": len(pairs), "ordered_triples": len(triples)}
+    chk.cov["chunkings_cut_after_bare_cr_then_before_lf"] = stale
+    chk.cov["streams_by_rule"] = {r: sum(1 for s in scen if s["rule"] == r) for r in ("bounded", "cover")}
+    chk.require(stale > 0, "no chunking cuts after a bare CR and later before an LF: the mixed-terminator family does not exercise the mechanism")
     return scen
 
 
@@ -315,7 +337,8 @@ def run(chk: Check) -> None:
     chk.cov["rule"] = (
         f"streams from the grammar of specs/StreamFamily.tla (Tier={b['tier']}: SSE 1-3 blocks x block shapes x payloads incl. empty, "
         f"{'2/3' if b['tier'] == 1 else '2/3/4'}-byte characters, trailing blank x LF/CRLF{'/alternating' if b['tier'] > 1 else ''} x last block closed / line-terminated / cut; NDJSON 1-3 records x LF/CRLF x "
-        f"blank line between x last record terminated or not); chunkings: every subset of cut points for streams <= {b['full']} bytes, "
+        f"blank line between x last record terminated or not; plus every per-line assignment of LF / bare CR / CRLF to the lines of fixed SSE and NDJSON shapes, "
+        f"chunked by a TLC-computed transition cover of depth {b['depth']} over cut classes <<machine state kind, byte before, byte after>>); chunkings of the other streams: every subset of cut points for streams <= {b['full']} bytes, "
         f"every chunking with <= {b['cuts']} cuts beyond (response without Content-Type); under each of 5 further Content-Types (no charset, utf-8, "
         f"ISO-8859-1, latin-1, unknown charset) every subset for streams <= {b['afull']} bytes and every chunking with <= {b['acuts']} cuts beyond; "
         f"two streams in one event loop: every interleaving of their chunks (<= {b['pcuts']} key cuts per stream or a cut at every line boundary), "
@@ -324,7 +347,7 @@ def run(chk: Check) -> None:
         "(StreamCore!CutKind # at_rest) or schedule that switches streams while an event is partly received (StreamPair!mid)"
     )
     chk.assumptions += [
-        "streams are valid UTF-8 with LF / CRLF terminators (bare CR, BOM, invalid UTF-8, other Unicode line separators are outside the property's statement)",
+        "streams are valid UTF-8 with LF / CRLF / bare-CR terminators (BOM, invalid UTF-8, other Unicode line separators are outside the property's statement); for NDJSON with a bare CR only the chunk-independence relation is a clause (the whole-stream meaning is compared as DRIFT)",
         "comment-only blocks: the monitor accepts both 'empty event delivered' and 'nothing delivered' (the property fixes only blocks with >= 1 field line); which one the code does is recorded",
         "NDJSON values are compared through their canonical JSON text (family records are canonical under json.dumps(ensure_ascii=False, separators=(',',':')))",
         "iter_bytes is judged on the concatenation of what it yields; whether chunk boundaries are preserved is recorded, not judged",
